@@ -7,10 +7,11 @@ import ast
 
 from .. import AnalysisError
 from ..finite import ConstEval, Undecidable
+from ..flatten import helper_closure
 from ..program import FuncInfo, norm, head
 from ..report import Finding, RuleResult
 from .shape import canon, count_appends, single_return, INF
-from .astutil import facts_at, inline_helpers as inline_any, local_alias_map, stmt_of
+from .astutil import expand_aliases, facts_at, inline_helpers as inline_any, local_alias_map, stmt_of
 
 
 def _parents(node):
@@ -37,7 +38,7 @@ def _returns(func: FuncInfo):
 def rule_deleg(ctx):
     prog = ctx.prog
     r = RuleResult("R-DELEG", floor=2)
-    g = prog.func("data.Data.get")
+    g = prog.flat("data.Data.get")
     rets = _returns(g)
     inst = {"Data.get returns": [norm(x.value) for x in rets if x.value is not None]}
     r.instances.append(inst)
@@ -47,7 +48,7 @@ def rule_deleg(ctx):
     else:
         r.fail(Finding("R-DELEG", "R-DELEG|data.Data.get", f"{g.file}:{g.node.lineno}",
                        "Data.get must delegate every lookup to `data_path.get_data(self, return_paths=return_paths)` so that all entry points agree", []))
-    gd = prog.func("datapath.DataPath.get_data")
+    gd = prog.flat("datapath.DataPath.get_data")
     # the return taken when the walk selected nothing: `if not <frontier>: return ...`
     nf = [x for x in _returns(gd) if x.value is not None and isinstance(x._parent, ast.If) and isinstance(x._parent.test, ast.UnaryOp) and isinstance(x._parent.test.op, ast.Not)
           and isinstance(x._parent.test.operand, ast.Name) and x._parent in gd.node.body]
@@ -82,10 +83,16 @@ def rule_lockstep(ctx):
     flow, not from variable names; if they cannot be inferred the rule is undecided."""
     prog = ctx.prog
     r = RuleResult("R-LOCKSTEP", floor=4)
-    f = prog.func("datapath.DataPath.get_data")
+    f = prog.flat("datapath.DataPath.get_data")
     where = f"{f.file}:{f.node.lineno}"
-    part_loop = next((st for st in f.node.body if isinstance(st, ast.For) and "self.parts" in ast.unparse(st.iter)), None)
+    part_loop = next((st for st in ast.walk(f.node) if isinstance(st, ast.For) and "self.parts" in ast.unparse(st.iter)), None)
     if part_loop is None:
+        # not in get_data nor in an exactly-inlinable helper: look in the helper closure
+        for g in helper_closure(prog, prog.func("datapath.DataPath.get_data"))[1:]:
+            if any(isinstance(st, ast.For) and "self.parts" in ast.unparse(st.iter) for st in ast.walk(g.node)):
+                r.instances.append({"roles": f"part loop lives in {g.qualname}, which cannot be inlined exactly"})
+                r.undecided.append({"what": f"part loop in non-inlinable helper {g.qualname}"})
+                return r
         raise AnalysisError("get_data: the loop over self.parts not found")
     part_var = _target_names(part_loop.target)[-1]
     fcalls = [n for n in ast.walk(part_loop) if isinstance(n, ast.Call) and isinstance(n.func, ast.Attribute) and n.func.attr == "filter" and isinstance(n.func.value, ast.Name) and n.func.value.id == part_var]
@@ -228,41 +235,105 @@ def rule_lockstep(ctx):
     else:
         r.fail(Finding("R-LOCKSTEP", "R-LOCKSTEP|datapath.DataPath.get_data|reset-copy", f"{f.file}:{part_loop.lineno}",
                        f"both next frontiers ({nd}, {np_}) must be reset to [] at the top of the per-part loop; reset: {sorted(resets)}", []))
-    # (4) between the part loop and zip(D, P) only the length-preserving datum extraction may touch a frontier
-    idx = f.node.body.index(part_loop)
-    zip_seen = False
-    for stt in f.node.body[idx + 1:]:
-        for n in ast.walk(stt):
-            if isinstance(n, ast.Call) and isinstance(n.func, ast.Name) and n.func.id == "zip" and sorted(ast.unparse(a) for a in n.args) == sorted([D, P]):
-                zip_seen = True
-        if zip_seen:
+    # (4) between the part loop and zip(D, P) only length-preserving rebindings may touch a frontier
+    following = []
+    cur = part_loop
+    for p in _parents(part_loop):
+        for fld in ("body", "orelse", "finalbody"):
+            blk = getattr(p, fld, None)
+            if isinstance(blk, list) and cur in blk:
+                following += blk[blk.index(cur) + 1:]
+        if isinstance(p, ast.stmt):
+            cur = p
+        if isinstance(p, (ast.FunctionDef, ast.AsyncFunctionDef)):
             break
-        for n in ast.walk(stt):
+    Dset, Pset = {D}, {P}
+
+    def length_preserving(v):
+        if isinstance(v, ast.Name) and v.id in Dset:
+            return True
+        if isinstance(v, ast.ListComp) and len(v.generators) == 1 and not v.generators[0].ifs and isinstance(v.generators[0].iter, ast.Name) and v.generators[0].iter.id in Dset:
+            return True
+        if isinstance(v, ast.Call) and norm(v.func) == "self._extract_specified_datum_type" and len(v.args) == 1 and isinstance(v.args[0], ast.Name) and v.args[0].id in Dset:
+            return True
+        return False
+    zip_seen = False
+
+    def scan(stmts):
+        nonlocal zip_seen
+        for stt in stmts:
+            if zip_seen:
+                return
+            if isinstance(stt, (ast.If, ast.For, ast.While, ast.Try, ast.With)):
+                hdr = [getattr(stt, "test", None), getattr(stt, "iter", None)]
+                for h in hdr:
+                    if h is not None:
+                        check_zip(h)
+                if zip_seen:
+                    return
+                for fld in ("body", "orelse", "finalbody"):
+                    scan(getattr(stt, fld, []) or [])
+                for h in getattr(stt, "handlers", []):
+                    scan(h.body)
+                continue
+            check_zip(stt)
+            if zip_seen:
+                return
             bad = None
-            if isinstance(n, (ast.Assign, ast.AugAssign)):
-                tg = n.targets if isinstance(n, ast.Assign) else [n.target]
-                for t in tg:
-                    if isinstance(t, ast.Name) and t.id in (D, P):
-                        inst = {"between loop and zip": norm(n)}
-                        r.instances.append(inst)
-                        if isinstance(n, ast.Assign) and t.id == D and norm(n.value) == f"self._extract_specified_datum_type({D})":
+            if isinstance(stt, ast.Assign) and len(stt.targets) == 1:
+                t, v = stt.targets[0], stt.value
+                pairs = []
+                if isinstance(t, ast.Name):
+                    pairs = [(t, v)]
+                elif isinstance(t, ast.Tuple) and isinstance(v, ast.Tuple) and len(t.elts) == len(v.elts):
+                    pairs = list(zip(t.elts, v.elts))
+                elif any(isinstance(x, ast.Name) and x.id in Dset | Pset for x in ast.walk(t)):
+                    bad = stt
+                joinD, joinP = set(), set()
+                for tt, vv in pairs:
+                    if not isinstance(tt, ast.Name):
+                        continue
+                    if length_preserving(vv):
+                        joinD.add(tt.id)
+                        if tt.id in Dset or not isinstance(vv, ast.Name):
+                            r.instances.append({"between loop and zip": norm(stt)})
                             r.ok()
-                        else:
-                            bad = n
-            if isinstance(n, ast.Call) and isinstance(n.func, ast.Attribute) and isinstance(n.func.value, ast.Name) and n.func.value.id in (D, P) and n.func.attr in ("pop", "remove", "insert", "append", "extend", "clear", "sort", "reverse"):
-                r.instances.append({"between loop and zip": norm(n)})
-                bad = n
+                    elif isinstance(vv, ast.Name) and vv.id in Pset:
+                        joinP.add(tt.id)
+                    elif tt.id in Dset | Pset:
+                        r.instances.append({"between loop and zip": norm(stt)})
+                        bad = stt
+                Dset.update(joinD)
+                Pset.update(joinP)
+            elif isinstance(stt, ast.AugAssign) and isinstance(stt.target, ast.Name) and stt.target.id in Dset | Pset:
+                r.instances.append({"between loop and zip": norm(stt)})
+                bad = stt
+            for n in ast.walk(stt):
+                if isinstance(n, ast.Call) and isinstance(n.func, ast.Attribute) and isinstance(n.func.value, ast.Name) and n.func.value.id in Dset | Pset and n.func.attr in ("pop", "remove", "insert", "append", "extend", "clear", "sort", "reverse"):
+                    r.instances.append({"between loop and zip": norm(n)})
+                    bad = n
             if bad is not None:
                 r.fail(Finding("R-LOCKSTEP", f"R-LOCKSTEP|datapath.DataPath.get_data|pre-zip|{norm(bad)[:50]}", f"{f.file}:{bad.lineno}",
-                               f"`{norm(bad)}` changes one frontier before values and paths are zipped; only the length-preserving datum extraction may touch the value frontier there", []))
-    inst = {f"zip({D}, {P}) present": zip_seen}
+                               f"`{norm(bad)}` changes one frontier before values and paths are zipped; only length-preserving rebindings of the value frontier (`X = [g(i) for i in X]`, the datum extraction) are allowed there", []))
+
+    def check_zip(node):
+        nonlocal zip_seen
+        for n in ast.walk(node):
+            if isinstance(n, ast.Call) and isinstance(n.func, ast.Name) and n.func.id == "zip" and len(n.args) == 2 and all(isinstance(a, ast.Name) for a in n.args):
+                a, b = n.args[0].id, n.args[1].id
+                if (a in Dset and b in Pset) or (a in Pset and b in Dset):
+                    zip_seen = True
+    scan(following)
+    inst = {f"zip({sorted(Dset)}, {sorted(Pset)}) present": zip_seen}
     r.instances.append(inst)
     if zip_seen:
         r.ok()
     else:
         r.undecided.append(inst)
     # (5) datum extraction is length-preserving
-    ex = prog.func("datapath.DataPath._extract_specified_datum_type")
+    ex = prog.cls("datapath.DataPath").lookup_method("_extract_specified_datum_type")
+    if ex is None:
+        return r    # inlined into get_data: covered by (4)
     pname = ex.params[1].name if len(ex.params) > 1 else "data"
     for c in [n for n in ast.walk(ex.node) if isinstance(n, ast.ListComp)]:
         inst = {"datum extraction": norm(c)}
@@ -275,76 +346,148 @@ def rule_lockstep(ctx):
     return r
 
 
+def _modifier_branches(prog, field, enum):
+    """{MEMBER: (body, FuncInfo)} of the `if self.<field> == <enum>.<MEMBER>` branches in get_data
+    (flattened) or in the private helpers it calls - wherever the dispatch lives."""
+    from ..flatten import flat
+    funcs = [prog.flat("datapath.DataPath.get_data")] + [flat(prog, g) for g in helper_closure(prog, prog.func("datapath.DataPath.get_data"))[1:]]
+    out = {}
+    for fn in funcs:
+        for n in ast.walk(fn.node):
+            if isinstance(n, ast.If) and isinstance(n.test, ast.Compare) and len(n.test.ops) == 1 and isinstance(n.test.ops[0], (ast.Eq, ast.Is)):
+                l, c = n.test.left, n.test.comparators[0]
+                if isinstance(l, ast.Attribute) and isinstance(c, ast.Attribute):
+                    l, c = (c, l) if norm(l).startswith(enum + ".") else (l, c)
+                    if norm(l) in (f"self.{field}", f"self._{field}") and isinstance(c.value, ast.Name) and c.value.id == enum:
+                        out.setdefault(c.attr, (n.body, fn))
+    return out
+
+
+def _is_pick(st, idx):
+    """`V = V[idx]`"""
+    return (isinstance(st, ast.Assign) and len(st.targets) == 1 and isinstance(st.targets[0], ast.Name) and isinstance(st.value, ast.Subscript)
+            and isinstance(st.value.value, ast.Name) and st.value.value.id == st.targets[0].id and norm(st.value.slice) == str(idx))
+
+
 def rule_enum(ctx):
+    from .astutil import modifier_effect
     prog = ctx.prog
     r = RuleResult("R-ENUM", floor=8)
     dp = prog.cls("datapath.DataPath")
     oracle_datum = {"DTYPE": "type(_v0)", "LENGTH": "len(_v0)", "MAP_KEYS": "list(_v0.keys())", "MAP_VALUES": "list(_v0.values())"}
-    ex = prog.func("datapath.DataPath._extract_specified_datum_type")
-    branches = {}
-    for n in ast.walk(ex.node):
-        if isinstance(n, ast.If) and isinstance(n.test, ast.Compare) and isinstance(n.test.comparators[0], ast.Attribute):
-            m = n.test.comparators[0].attr
-            for st in n.body:
-                if isinstance(st, ast.Assign) and isinstance(st.value, ast.ListComp):
-                    branches[m] = st.value
+    dbr = _modifier_branches(prog, "DATUM_TYPE", "DataPathDatumType")
+    where = f"{dp.module.relpath}:{dp.node.lineno}"
     for m, want in oracle_datum.items():
         meth = dp.lookup_method(m.lower())
         inst = {"member": f"DataPathDatumType.{m}"}
         r.instances.append(inst)
-        rv = single_return(meth) if meth else None
-        ok_m = rv is not None and norm(rv) == f"self._copy_with_datum_type(DataPathDatumType.{m})"
-        br = branches.get(m)
-        got = canon(br.elt, None) if br is not None else None
-        if br is not None:
-            got = canon(br).split(" for ")[0].lstrip("[")
-        inst["method"] = norm(rv) if rv is not None else None
+        eff = modifier_effect(prog, meth) if meth else ("bad", "no such method")
+        ok_m = eff == ("ok", "DATUM_TYPE", f"DataPathDatumType.{m}")
+        got = None
+        body, fn = dbr.get(m, (None, None))
+        if body is not None:
+            comps = [st.value for st in body if isinstance(st, ast.Assign) and isinstance(st.value, ast.ListComp)]
+            if len(comps) == 1:
+                got = canon(comps[0]).split(" for ")[0].lstrip("[")
+        inst["method"] = list(eff)
         inst["branch"] = got
         if ok_m and got == want:
             r.ok()
+        elif body is None and ok_m:
+            inst["verdict"] = "undecided: extraction branch not found in get_data or its helpers"
+            r.undecided.append(inst)
         else:
-            r.fail(Finding("R-ENUM", f"R-ENUM|DataPathDatumType.{m}", f"{ex.file}:{ex.node.lineno}",
-                           f"datum modifier {m}: method `{m.lower()}()` is `{inst['method']}` and its extraction branch computes `{got}`; expected `_copy_with_datum_type(DataPathDatumType.{m})` and `{want}` of each selected node", []))
-    mm = prog.func("datapath.DataPath._match_specified_multi_type")
-    oracle_multi = {"FIRST": "data = data[0]", "LAST": "data = data[-1]", "ALL": "pass"}
-    mb = {}
-    for n in ast.walk(mm.node):
-        if isinstance(n, ast.If) and isinstance(n.test, ast.Compare) and isinstance(n.test.comparators[0], ast.Attribute):
-            mb[n.test.comparators[0].attr] = n.body
+            r.fail(Finding("R-ENUM", f"R-ENUM|DataPathDatumType.{m}", f"{fn.file}:{body[0].lineno}" if body else where,
+                           f"datum modifier {m}: method `{m.lower()}()` has effect {list(eff)} and its extraction branch computes `{got}`; expected a fresh copy with DATUM_TYPE = DataPathDatumType.{m} and `{want}` of each selected node", []))
+    mb = _modifier_branches(prog, "MULTI_TYPE", "DataPathMultiType")
     for m in ("FIRST", "LAST", "SINGLE", "ALL"):
         meth = dp.lookup_method(m.lower())
-        rv = single_return(meth) if meth else None
-        inst = {"member": f"DataPathMultiType.{m}", "method": norm(rv) if rv is not None else None, "branch": [norm(s) for s in mb.get(m, [])]}
+        eff = modifier_effect(prog, meth) if meth else ("bad", "no such method")
+        body, fn = mb.get(m, (None, None))
+        inst = {"member": f"DataPathMultiType.{m}", "method": list(eff), "branch": [norm(s) for s in (body or [])]}
         r.instances.append(inst)
-        ok_m = rv is not None and norm(rv) == f"self._copy_with_multi_type(DataPathMultiType.{m})"
-        body = mb.get(m)
-        if m == "SINGLE":
-            ok_b = body is not None and len(body) == 2 and isinstance(body[0], ast.If) and norm(body[0].test) == "len(data) > 1" and any(isinstance(x, ast.Raise) for x in body[0].body) and norm(body[1]) == "data = data[0]"
+        ok_m = eff == ("ok", "MULTI_TYPE", f"DataPathMultiType.{m}")
+        if body is None:
+            ok_b = None
+        elif m == "SINGLE":
+            ok_b = (len(body) == 2 and isinstance(body[0], ast.If) and isinstance(body[0].test, ast.Compare) and canon(body[0].test).startswith("len(") and canon(body[0].test).endswith(") > 1")
+                    and any(isinstance(x, ast.Raise) for x in body[0].body) and not body[0].orelse and _is_pick(body[1], 0))
+        elif m == "ALL":
+            ok_b = len(body) == 1 and isinstance(body[0], ast.Pass)
         else:
-            ok_b = body is not None and len(body) == 1 and norm(body[0]) == oracle_multi[m]
+            ok_b = len(body) == 1 and _is_pick(body[0], 0 if m == "FIRST" else -1)
         if ok_m and ok_b:
             r.ok()
+        elif ok_m and ok_b is None:
+            inst["verdict"] = "undecided: multiplicity branch not found in get_data or its helpers"
+            r.undecided.append(inst)
         else:
-            r.fail(Finding("R-ENUM", f"R-ENUM|DataPathMultiType.{m}", f"{mm.file}:{mm.node.lineno}",
-                           f"multiplicity modifier {m}: method is `{inst['method']}`, branch is {inst['branch']}; expected first = data[0], last = data[-1], single = error if several else data[0], all = unchanged", []))
+            r.fail(Finding("R-ENUM", f"R-ENUM|DataPathMultiType.{m}", f"{fn.file}:{body[0].lineno}" if body else where,
+                           f"multiplicity modifier {m}: method has effect {list(eff)}, branch is {inst['branch']}; expected a fresh copy with MULTI_TYPE = DataPathMultiType.{m} and first = data[0], last = data[-1], single = error if several else data[0], all = unchanged", []))
     return r
+
+
+def _literal_args_of_param(prog, fn: FuncInfo, pname):
+    """String literals every call site passes for parameter `pname` of fn, or None if some call
+    site passes something else (call sites found by callee name)."""
+    names = [p.name for p in fn.params]
+    if pname not in names:
+        return None
+    idx = names.index(pname)
+    if fn.cls is not None and fn.kind in ("method", "classmethod"):
+        idx -= 1
+    lits, sites = [], 0
+    for g in prog.all_functions():
+        for n in ast.walk(g.node):
+            if isinstance(n, ast.Call) and ((isinstance(n.func, ast.Attribute) and n.func.attr == fn.name) or (isinstance(n.func, ast.Name) and n.func.id == fn.name and fn.cls is None)):
+                sites += 1
+                a = None
+                if idx < len(n.args):
+                    a = n.args[idx]
+                else:
+                    a = next((k.value for k in n.keywords if k.arg == pname), None)
+                if isinstance(a, ast.Constant) and isinstance(a.value, str):
+                    lits.append(a.value)
+                elif isinstance(a, ast.Name) and g.name == fn.name and a.id == pname:
+                    continue
+                else:
+                    return None
+    return sorted(set(lits)) if sites else None
 
 
 def rule_writers(ctx):
     """Fields of paths (and the other definition objects) are written only by their own
-    constructor, their own property setter, or on a fresh copy by the modifier helpers."""
+    constructor, their own property setter, or - for fields that have a validating setter - on
+    a fresh shallow copy made in the same function (the modifier idiom)."""
+    from .astutil import modifier_effect
     prog = ctx.prog
     r = RuleResult("R-WRITERS", floor=4)
     watched = {"datapath.DataPath": None, "datapath.MapValue": None, "datapath.ListValue": None, "datapath.MapOrListValue": None,
                "rules.Rule": None, "conditions.Condition": None, "conditions.ConditionBinaryOp": None, "conditions.PreparedConditionCallable": None}
     field_owner = {}
+    setter_fields = set()
     for cq in watched:
         c = prog.cls(cq)
         for fld in c.all_fields():
             field_owner.setdefault(fld, set()).add(cq)
+        for k in c.mro:
+            for sname in k.setters:
+                setter_fields.add(sname)
+                field_owner.setdefault(sname, set()).add(cq)
     for f in prog.all_functions():
         if f.name == "__init__" or f.module.name in ("schema",) and f.cls is not None and f.cls.name in ("ValidatedData", "_TestDataSchema"):
             continue
+        fresh = {n.targets[0].id for n in ast.walk(f.node)
+                 if isinstance(n, ast.Assign) and len(n.targets) == 1 and isinstance(n.targets[0], ast.Name) and isinstance(n.value, ast.Call)
+                 and norm(n.value.func) in ("copy.copy",) and len(n.value.args) == 1 and norm(n.value.args[0]) == "self"}
+        rebound = {}
+        for n in ast.walk(f.node):
+            if isinstance(n, ast.Assign):
+                for t in n.targets:
+                    if isinstance(t, ast.Name):
+                        rebound[t.id] = rebound.get(t.id, 0) + 1
+        fresh = {v for v in fresh if rebound.get(v) == 1}
+        stores = []   # (receiver expr, field, node)
         for n in ast.walk(f.node):
             tg = []
             if isinstance(n, ast.Assign):
@@ -352,32 +495,47 @@ def rule_writers(ctx):
             elif isinstance(n, ast.AugAssign):
                 tg = [n.target]
             for t in tg:
-                if not (isinstance(t, ast.Attribute) and t.attr in field_owner):
-                    continue
-                recv = ast.unparse(t.value)
-                owner = field_owner[t.attr]
-                # RuleTest / FilteredData etc. share field names (`condition`, `path`...): only flag receivers that are not `self` of an unrelated class
-                if isinstance(t.value, ast.Name) and t.value.id == "self" and f.cls is not None:
-                    if not any(f.cls.qualname == o or prog.cls(o) in f.cls.mro for o in owner):
-                        continue
-                inst = {"site": f"{f.qualname}: {norm(n)}"}
-                r.instances.append(inst)
-                ok = False
-                if f.kind == "setter" and recv == "self":
-                    ok = True
-                elif f.name in ("_copy_with_datum_type", "_copy_with_multi_type") and recv == "obj":
-                    want = "DATUM_TYPE" if f.name == "_copy_with_datum_type" else "MULTI_TYPE"
-                    fresh = any(isinstance(s, ast.Assign) and norm(s) == "obj = copy.copy(self)" for s in f.node.body)
-                    ok = t.attr == want and fresh
-                elif f.cls is not None and f.cls.qualname in ("rules.RuleTest",) and recv == "self":
-                    ok = True
-                if ok:
-                    inst["verdict"] = "own setter / fresh modifier copy / construction"
-                    r.ok()
+                if isinstance(t, ast.Attribute) and t.attr in field_owner:
+                    stores.append((t.value, t.attr, n))
+            if isinstance(n, ast.Call) and isinstance(n.func, ast.Name) and n.func.id == "setattr" and len(n.args) == 3:
+                nm = n.args[1]
+                if isinstance(nm, ast.Constant) and isinstance(nm.value, str):
+                    names = [nm.value]
+                elif isinstance(nm, ast.Name):
+                    names = _literal_args_of_param(prog, f, nm.id)
                 else:
-                    r.fail(Finding("R-WRITERS", f"R-WRITERS|{f.qualname}|{norm(n)}", f"{f.file}:{n.lineno}",
-                                   f"`{norm(n)}` in {f.qualname} writes field `{t.attr}` of a {'/'.join(sorted(o.split('.')[-1] for o in owner))} outside its constructor: "
-                                   f"derived state (e.g. is_concrete for parts) is not recomputed and a shared object may be altered", []))
+                    names = None
+                if names is None:
+                    # unbounded dynamic store: only a problem when the receiver can be a watched object
+                    if f.cls is not None and f.cls.qualname in watched:
+                        stores.append((n.args[0], "<dynamic>", n))
+                    continue
+                for fld in names:
+                    if fld in field_owner:
+                        stores.append((n.args[0], fld, n))
+        for rv, fld, n in stores:
+            recv = ast.unparse(rv)
+            owner = field_owner.get(fld, set(watched))
+            # RuleTest / FilteredData etc. share field names (`condition`, `path`...): only flag receivers that are not `self` of an unrelated class
+            if isinstance(rv, ast.Name) and rv.id == "self" and f.cls is not None:
+                if not any(f.cls.qualname == o or prog.cls(o) in f.cls.mro for o in owner):
+                    continue
+            inst = {"site": f"{f.qualname}: {norm(n)}", "field": fld}
+            r.instances.append(inst)
+            ok = False
+            if f.kind == "setter" and recv == "self":
+                ok = True
+            elif isinstance(rv, ast.Name) and rv.id in fresh and fld in setter_fields and f.cls is not None and f.cls.qualname in watched:
+                ok = True
+            elif f.cls is not None and f.cls.qualname in ("rules.RuleTest",) and recv == "self":
+                ok = True
+            if ok:
+                inst["verdict"] = "own setter / fresh modifier copy through a validating setter / construction"
+                r.ok()
+            else:
+                r.fail(Finding("R-WRITERS", f"R-WRITERS|{f.qualname}|{norm(n)}", f"{f.file}:{n.lineno}",
+                               f"`{norm(n)}` in {f.qualname} writes field `{fld}` of a {'/'.join(sorted(o.split('.')[-1] for o in owner))} outside its constructor: "
+                               f"derived state (e.g. is_concrete for parts) is not recomputed and a shared object may be altered", []))
     # the MULTI_TYPE setter refuses concrete paths
     dp = prog.cls("datapath.DataPath")
     st = dp.lookup_setter("MULTI_TYPE")
@@ -385,25 +543,36 @@ def rule_writers(ctx):
     r.instances.append(inst)
     ok = False
     if st is not None:
+        def refusal(t):
+            if not (isinstance(t, ast.BoolOp) and isinstance(t.op, ast.And) and len(t.values) == 2):
+                return False
+            txt = sorted(norm(v) for v in t.values)
+            return "self.is_concrete" in txt and any(isinstance(v, ast.Attribute) and v.attr == "value" and isinstance(v.value, ast.Name) for v in t.values)
         for n in ast.walk(st.node):
-            if isinstance(n, ast.If) and norm(n.test) == "self.is_concrete and multi_type.value" and any(isinstance(x, ast.Raise) for x in n.body):
+            if isinstance(n, ast.If) and refusal(n.test) and any(isinstance(x, ast.Raise) for x in n.body):
                 stores = [x for x in ast.walk(st.node) if isinstance(x, ast.Assign) and isinstance(x.targets[0], ast.Attribute) and x.targets[0].attr == "_MULTI_TYPE"]
-                ok = bool(stores) and all(_enclosing(x, ast.If) is n and x in n.orelse for x in stores)
+                guard = canon(n.test)
+                ok = bool(stores) and all(f"not ({guard})" in facts_at(prog, st, x, canon) or f"not {guard}" in facts_at(prog, st, x, canon) for x in stores)
     if ok:
         r.ok()
     else:
         r.fail(Finding("R-WRITERS", "R-WRITERS|datapath.DataPath.MULTI_TYPE.setter", f"{dp.module.relpath}:{dp.node.lineno}",
                        "the MULTI_TYPE setter must raise for a concrete path with a multiplicity modifier and store `_MULTI_TYPE` only otherwise", []))
-    for nm, fld in (("_copy_with_datum_type", "DATUM_TYPE"), ("_copy_with_multi_type", "MULTI_TYPE")):
-        m = dp.lookup_method(nm)
-        inst = {"modifier helper": nm}
+    # every zero-argument method that copies self is a modifier: one enum-valued store on the fresh copy, which is returned
+    for nm, m in sorted(dp.methods.items()):
+        if m.kind != "method" or len(m.params) != 1 or nm.startswith("__"):
+            continue
+        ff = prog.flat(m.qualname)
+        if not any(isinstance(x, ast.Call) and norm(x.func) == "copy.copy" for x in ast.walk(ff.node)):
+            continue
+        eff = modifier_effect(prog, m)
+        inst = {"modifier": nm, "effect": list(eff)}
         r.instances.append(inst)
-        body = [norm(s) for s in m.node.body] if m else []
-        if m and "obj = copy.copy(self)" in body and f"obj.{fld} = {m.params[1].name}" in body and "return obj" in body:
+        if eff[0] == "ok" and eff[1] in setter_fields and eff[2].split(".")[-1] == nm.upper():
             r.ok()
         else:
-            r.fail(Finding("R-WRITERS", f"R-WRITERS|datapath.DataPath.{nm}", f"{dp.module.relpath}:{dp.node.lineno}",
-                           f"{nm} must set only `{fld}` on a fresh shallow copy and return it", []))
+            r.fail(Finding("R-WRITERS", f"R-WRITERS|datapath.DataPath.{nm}", f"{m.file}:{m.node.lineno}",
+                           f"modifier `{nm}()` must return a fresh shallow copy with exactly one field set through its validating setter, to the enum member {nm.upper()} (effect: {list(eff)})", []))
     return r
 
 
@@ -424,7 +593,7 @@ def rule_collect(ctx):
     bad forms (violations) and is otherwise undecided."""
     prog = ctx.prog
     r = RuleResult("R-COLLECT", floor=6)
-    f = prog.func("rules.RuleTest._test")
+    f = prog.flat("rules.RuleTest._test")
     where = f"{f.file}:{f.node.lineno}"
     canon_l = lambda e: canon(inline_any(prog, f, e))
 
@@ -438,7 +607,7 @@ def rule_collect(ctx):
     SEL, sel_as = sel[0]
     call = sel_as.value
     kws = {k.arg: norm(k.value) for k in call.keywords}
-    if norm(call.func.value) == "self.rule.path" and [norm(a) for a in call.args] == ["self.data"] and kws.get("return_paths") == "True":
+    if norm(expand_aliases(f, call.func.value)) == "self.rule.path" and [norm(expand_aliases(f, a)) for a in call.args] == ["self.data"] and kws.get("return_paths") == "True":
         r.ok()
     else:
         r.fail(Finding("R-COLLECT", "R-COLLECT|rules.RuleTest._test|selection", f"{f.file}:{sel_as.lineno}",
@@ -472,13 +641,13 @@ def rule_collect(ctx):
         kws = {k.arg: norm(k.value) for k in fc.keywords}
         args = [norm(a) for a in fc.args]
         problems = []
-        if norm(fc.func.value) != "self.rule.condition":
+        if norm(expand_aliases(f, fc.func.value)) != "self.rule.condition":
             problems.append("the rule's own condition must filter")
         if len(args) != 1 or not isinstance(fc.args[0], ast.Name):
             problems.append("the selection must be filtered")
         if kws.get("data_has_paths") != "True":
             problems.append("data_has_paths=True is required (the selection carries concrete paths)")
-        if kws.get("source_data") != "self.data":
+        if "source_data" not in kws or norm(expand_aliases(f, next(k.value for k in fc.keywords if k.arg == "source_data"))) != "self.data":
             problems.append("source_data=self.data is required (path arguments are resolved against the validated document)")
         facts = facts_at(prog, f, fc, canon)
         if EX and EX not in facts:
@@ -590,7 +759,7 @@ def rule_collect(ctx):
     else:
         r.fail(Finding("R-DEFATTR", "R-DEFATTR|rules.RuleTest._test|callers", where, f"_test must run exactly once per rule test, from RuleTest.__init__ (callers: {callers})", []))
     # (g) Rule.test judges a fresh RuleTest on the (possibly cast) copy
-    rule_test = prog.func("rules.Rule.test")
+    rule_test = prog.flat("rules.Rule.test")
     rets = [x.value for x in _returns(rule_test) if x.value is not None]
     inst = {"Rule.test returns": [norm(x) for x in rets]}
     r.instances.append(inst)
@@ -599,7 +768,14 @@ def rule_collect(ctx):
         # the document argument must be the copy variable (the one set_datum writes into), not the original parameter
         sd = [n for n in ast.walk(rule_test.node) if isinstance(n, ast.Call) and norm(n.func) == "set_datum" and n.args]
         copyvar = norm(sd[0].args[0]) if sd else None
-        if copyvar and all(len(x.args) == 2 and norm(x.args[0]) == "self" and norm(x.args[1]) == copyvar for x in ctor):
+        def judged_ok(x):
+            if len(x.args) != 2 or norm(x.args[0]) != "self":
+                return False
+            if norm(x.args[1]) == copyvar:
+                return True
+            # without casts nothing is written: judging the input document itself is the same thing
+            return "not self.cast" in facts_at(prog, rule_test, x, canon) and isinstance(x.args[1], ast.Name)
+        if copyvar and all(judged_ok(x) for x in ctor):
             r.ok()
         elif copyvar:
             r.fail(Finding("R-COLLECT", "R-COLLECT|rules.Rule.test|return", f"{rule_test.file}:{ctor[0].lineno}",
@@ -625,7 +801,7 @@ def rule_record(ctx):
                 call, host = n, m
     inst = {"failure record": norm(call)[:160] if call else None}
     r.instances.append(inst)
-    init = prog.func("rules.RuleTestFailureItem.__init__")
+    init = prog.flat("rules.RuleTestFailureItem.__init__")
     names = [p.name for p in init.params[1:]]
     if call is None:
         r.undecided.append(inst)
@@ -660,7 +836,7 @@ def rule_record(ctx):
         else:
             r.undecided.append(inst)
     # R-INDEX
-    it = prog.func("data.FilteredDataItem.__init__")
+    it = prog.flat("data.FilteredDataItem.__init__")
     reads = {}
     for s_ in it.node.body:
         if isinstance(s_, ast.Assign) and isinstance(s_.value, ast.Subscript):
@@ -716,7 +892,7 @@ def child_flags(prog, b):
 def rule_flag(ctx):
     prog = ctx.prog
     r = RuleResult("R-FLAG", floor=3)
-    f = prog.func("conditions.Condition._filter")
+    f = prog.flat("conditions.Condition._filter")
     ok = False
     for n in ast.walk(f.node):
         if isinstance(n, ast.If) and norm(n.test) == "data_has_paths" and [norm(s) for s in n.body] in (["(datum, _) = datum"], ["datum, _ = datum"]):
@@ -726,14 +902,14 @@ def rule_flag(ctx):
         r.ok()
     else:
         r.fail(Finding("R-FLAG", "R-FLAG|conditions.Condition._filter", f"{f.file}:{f.node.lineno}", "`if data_has_paths: datum, _ = datum` must be the first statement of the item loop", []))
-    g = prog.func("data.FilteredData.__init__")
+    g = prog.flat("data.FilteredData.__init__")
     ok = any(isinstance(n, ast.If) and norm(n.test) == "data_has_paths" and [norm(s) for s in n.body] == ["self.concrete_paths = self.source.extract_paths()"] for n in ast.walk(g.node))
     r.instances.append({"site": "FilteredData.__init__ path extraction", "ok": ok})
     if ok:
         r.ok()
     else:
         r.fail(Finding("R-FLAG", "R-FLAG|data.FilteredData.__init__", f"{g.file}:{g.node.lineno}", "paths must be split off (`self.source.extract_paths()`) exactly under `data_has_paths`", []))
-    b = prog.func("conditions.ConditionBinaryOp._filter")
+    b = prog.flat("conditions.ConditionBinaryOp._filter")
     flags = child_flags(prog, b)
     r.instances.append({"site": "ConditionBinaryOp._filter flags", "data_has_paths=True": flags.get(True), "data_has_paths=False": flags.get(False)})
     if flags.get("undecided"):
@@ -743,7 +919,7 @@ def rule_flag(ctx):
     else:
         r.fail(Finding("R-FLAG", "R-FLAG|conditions.ConditionBinaryOp._filter", f"{b.file}:{b.node.lineno}",
                        f"only the first child may receive data_has_paths (the first leaf that filters splits the paths off); children receive {flags.get(True)} / {flags.get(False)}", []))
-    ep = prog.func("data.Data.extract_paths")
+    ep = prog.flat("data.Data.extract_paths")
     body = [norm(s) for s in ep.node.body]
     r.instances.append({"site": "Data.extract_paths", "stmts": body})
     if body in (["(values, concrete_paths) = list(zip(*self.values()))", "self._values = list(values)", "return concrete_paths"], ["values, concrete_paths = list(zip(*self.values()))", "self._values = list(values)", "return concrete_paths"]):
@@ -796,7 +972,7 @@ def rule_fold(ctx):
         else:
             r.undecided.append(inst)
     # one rule test per rule over the same document and the same copy
-    init = prog.func("schema.ValidatedData.__init__")
+    init = prog.flat("schema.ValidatedData.__init__")
     rt = None
     for s_ in init.node.body:
         if isinstance(s_, ast.Assign) and norm(s_.targets[0]) == "self.rule_tests":
@@ -839,7 +1015,7 @@ def rule_fold(ctx):
         else:
             r.fail(Finding("R-FOLD", "R-FOLD|schema.ValidatedData.__init__|rule_tests", f"{init.file}:{lp.lineno}",
                            f"every rule of the schema must be tested exactly once on self.data and {copyvar} (loop `{head(lp)}`, appends per rule {lo}..{hi})", []))
-    v = prog.func("schema.Schema.validate")
+    v = prog.flat("schema.Schema.validate")
     rets = [x.value for x in _returns(v) if x.value is not None]
     inst = {"Schema.validate returns": [norm(x) for x in rets]}
     r.instances.append(inst)
@@ -853,23 +1029,50 @@ def rule_fold(ctx):
     return r
 
 
+def _key_function_body(prog, func, kexpr):
+    """(param name, body expr) of a sort-key callable: a lambda, or a named single-return helper."""
+    from .astutil import simple_helper_return
+    if isinstance(kexpr, ast.Lambda) and len(kexpr.args.args) == 1:
+        return kexpr.args.args[0].arg, kexpr.body
+    ent = None
+    if isinstance(kexpr, ast.Name):
+        ent = prog.resolve_expr(func.module, kexpr)
+    elif isinstance(kexpr, ast.Attribute) and isinstance(kexpr.value, ast.Name) and kexpr.value.id in ("self", "cls") and func.cls is not None:
+        ent = func.cls.lookup_method(kexpr.attr)
+        if ent is not None and ent.kind != "staticmethod":
+            ent = None
+    elif isinstance(kexpr, ast.Attribute):
+        ent = prog.resolve_expr(func.module, kexpr)
+    if isinstance(ent, FuncInfo) and len(ent.params) == 1:
+        rv = simple_helper_return(ent)
+        if rv is not None:
+            return ent.params[0].name, inline_any(prog, ent, rv)
+    return None
+
+
 def rule_sort(ctx):
     prog = ctx.prog
     r = RuleResult("R-SORT", floor=2)
     sc = prog.cls("schema.Schema")
     n_sites = 0
-    for mname in ("__init__", "add_schema"):
-        m = sc.lookup_method(mname)
+    for mname, m in sorted(sc.methods.items()):
         binds = [s for s in ast.walk(m.node) if isinstance(s, ast.Assign) and norm(s.targets[0]) == "self.rules"]
         for s in binds:
+            v = s.value
+            if not (isinstance(v, ast.Call) and isinstance(v.func, ast.Name) and v.func.id == "sorted") and mname not in ("__init__", "add_schema"):
+                continue
             n_sites += 1
             inst = {"site": f"schema.Schema.{mname}: {norm(s)}"}
             r.instances.append(inst)
-            v = s.value
-            ok = (isinstance(v, ast.Call) and isinstance(v.func, ast.Name) and v.func.id == "sorted" and len(v.args) == 1
-                  and {k.arg for k in v.keywords} == {"key"} and isinstance(v.keywords[0].value, ast.Lambda)
-                  and canon(v.keywords[0].value.body, {v.keywords[0].value.args.args[0].arg: "R"}) == "len(R.path)")
+            shape = (isinstance(v, ast.Call) and isinstance(v.func, ast.Name) and v.func.id == "sorted" and len(v.args) == 1
+                     and {k.arg for k in v.keywords} == {"key"})
             src_ok = isinstance(v, ast.Call) and v.args and norm(v.args[0]) in ("rules", "self.rules")
+            kb = _key_function_body(prog, m, v.keywords[0].value) if shape else None
+            if shape and src_ok and kb is None:
+                inst["verdict"] = "undecided: sort key is not a lambda / single-return helper"
+                r.undecided.append(inst)
+                continue
+            ok = shape and kb is not None and canon(kb[1], {kb[0]: "R"}) in ("len(R.path)", "len(R.path.parts)")
             if ok and src_ok:
                 r.ok()
             else:
@@ -901,7 +1104,7 @@ def rule_rettype(ctx):
     prog = ctx.prog
     r = RuleResult("R-RETTYPE", floor=2)
     for q in ("schema.ValidatedData.get_failures_string", "rules.RuleTest.get_failures_string"):
-        f = prog.func(q)
+        f = prog.flat(q)
         strvars = set()
         for n in ast.walk(f.node):
             if isinstance(n, ast.Assign) and isinstance(n.targets[0], ast.Name) and _str_typed(n.value, strvars):
@@ -938,7 +1141,7 @@ def rule_rettype(ctx):
 def rule_once_c18(ctx):
     prog = ctx.prog
     r = RuleResult("R-ONCE/C18", floor=2)
-    f = prog.func("schema.Schema.add_schema")
+    f = prog.flat("schema.Schema.add_schema")
     where = f"{f.file}:{f.node.lineno}"
     loops = [s for s in f.node.body if isinstance(s, ast.For)]
     inst = {"loop": head(loops[0]) if loops else None, "top-level statements": [head(s) for s in f.node.body if not (isinstance(s, ast.Expr) and isinstance(s.value, ast.Constant))]}
@@ -973,14 +1176,48 @@ def rule_once_c18(ctx):
 # ------------------------------------------------------------------------------------------
 # C15
 # ------------------------------------------------------------------------------------------
+def _looptry_in_helper(prog, f, r):
+    """The cast loop lives in a helper that cannot be inlined exactly (e.g. it returns from inside
+    the loop).  Decide what is still visible: the helper is called per node, and a failed cast
+    does not abandon the node's other casts by raising.  The rest is undecided."""
+    for g in helper_closure(prog, prog.func("rules.Rule.test"))[1:]:
+        loops = [n for n in ast.walk(g.node) if isinstance(n, ast.For) and "self.cast" in norm(n.iter)]
+        if not loops:
+            continue
+        cast_loop = loops[0]
+        r.instances.append({"cast loop": f"{g.qualname}: {head(cast_loop)} (helper not inlinable: partial decision)"})
+        calls = [n for n in ast.walk(f.node) if isinstance(n, ast.Call) and isinstance(n.func, ast.Attribute) and n.func.attr == g.name]
+        per_node = [c for c in calls if any(isinstance(p, ast.For) and isinstance(p.target, ast.Tuple) and len(p.target.elts) == 2 for p in _parents(c))]
+        r.instances.append({"helper calls": [norm(c) for c in calls], "inside a per-node loop": len(per_node)})
+        if calls and len(per_node) == len(calls):
+            r.ok()
+        else:
+            r.undecided.append({"what": "helper holding the cast loop is not called from a recognisable per-node loop"})
+        names = [t.id for t in ast.walk(cast_loop.target) if isinstance(t, ast.Name)]
+        call = next((n for n in ast.walk(cast_loop) if isinstance(n, ast.Call) and isinstance(n.func, ast.Name) and n.func.id in names), None)
+        tr = _enclosing(call, ast.Try) if call is not None else None
+        if tr is not None and any(p is cast_loop for p in _parents(tr)):
+            bad = [n for h in tr.handlers for n in ast.walk(h) if isinstance(n, (ast.Break, ast.Raise))]
+            r.instances.append({"handler exits": [head(b) for b in bad]})
+            if bad:
+                r.fail(Finding("R-LOOPTRY", "R-LOOPTRY|rules.Rule.test|handler", f"{g.file}:{bad[0].lineno}", "a failed cast must leave the node as it is and continue with the other casts / nodes", []))
+            else:
+                r.ok()
+        else:
+            r.undecided.append({"what": "try around the cast call not recognised in the helper"})
+        r.undecided.append({"what": "source-type guard and write-back of the cast result: split across helpers, not decided by this rule (R-RAISE/C07, R-PURE/C15 and R-ESCAPE/C15 still apply)"})
+        return r
+    raise AnalysisError("Rule.test: the loop over self.cast not found (neither in Rule.test nor in its private helpers)")
+
+
 def rule_looptry(ctx):
     prog = ctx.prog
     r = RuleResult("R-LOOPTRY", floor=3)
-    f = prog.func("rules.Rule.test")
+    f = prog.flat("rules.Rule.test")
     where = f"{f.file}:{f.node.lineno}"
     cast_loops = [n for n in ast.walk(f.node) if isinstance(n, ast.For) and "self.cast" in norm(n.iter)]
     if not cast_loops:
-        raise AnalysisError("Rule.test: the loop over self.cast not found")
+        return _looptry_in_helper(prog, f, r)
     cast_loop = cast_loops[0]
     # the per-node loop: the nearest enclosing loop whose target unpacks (node, path)
     node_loop = next((p for p in _parents(cast_loop) if isinstance(p, ast.For) and isinstance(p.target, ast.Tuple) and len(p.target.elts) == 2), None)
@@ -1042,8 +1279,8 @@ def rule_looptry(ctx):
 def rule_fields(ctx):
     prog = ctx.prog
     r = RuleResult("R-FIELDS", floor=5)
-    w = prog.func("rules.Rule.to_json_like")
-    rd = prog.func("rules.Rule.from_spec")
+    w = prog.flat("rules.Rule.to_json_like")
+    rd = prog.flat("rules.Rule.from_spec")
     out = None
     for st in w.node.body:
         if isinstance(st, ast.Assign) and isinstance(st.value, ast.Dict):
@@ -1150,7 +1387,7 @@ def _canon_part(prog, func, var):
 def rule_guarded(ctx):
     prog = ctx.prog
     r = RuleResult("R-GUARDED", floor=4)
-    f = prog.func("datapath.DataPath.simplify")
+    f = prog.flat("datapath.DataPath.simplify")
     loop = next((n for n in ast.walk(f.node) if isinstance(n, ast.For)), None)
     if loop is None:
         raise AnalysisError("DataPath.simplify: loop over parts not found")
@@ -1189,7 +1426,7 @@ def rule_guarded(ctx):
                                    f"`{norm(n)}` in {g.qualname} reads the 'value' argument of a condition without checking which callable the condition uses: "
                                    f"conditions built by other constructors (e.g. the index/key pair of a map-or-list part, in_range) have no such argument (KeyError)", []))
     # to_part_specs: primitives only via simplify(); bare type only for a null condition and no label; otherwise raise
-    g = prog.func("datapath.DataPath.to_part_specs")
+    g = prog.flat("datapath.DataPath.to_part_specs")
     lp = next((n for n in ast.walk(g.node) if isinstance(n, ast.For)), None)
     names = _target_names(lp.target) if lp is not None else []
     pvar = names[0] if names else "part"
@@ -1299,7 +1536,7 @@ def rule_thread(ctx):
 def rule_depth(ctx):
     prog = ctx.prog
     r = RuleResult("R-DEPTH", floor=3)
-    res = prog.func("conditions.PreparedConditionCallable._get_resolved_data_path_args")
+    res = prog.flat("conditions.PreparedConditionCallable._get_resolved_data_path_args")
     src = ast.unparse(res.node)
     helper = None
     for n in ast.walk(res.node):
@@ -1391,7 +1628,7 @@ def rule_reasons(ctx):
     hold, so the operator row is then the only source of a reason and must not be skipped."""
     prog = ctx.prog
     r = RuleResult("R-REASONS", floor=1)
-    f = prog.func("data.FilteredDataLike.get_failure_by_index")
+    f = prog.flat("data.FilteredDataLike.get_failure_by_index")
     skips = [n for n in ast.walk(f.node) if isinstance(n, ast.If) and any(isinstance(x, ast.Continue) for x in n.body)
              and isinstance(n.test, ast.Compare) and isinstance(n.test.ops[0], ast.In) and isinstance(n.test.comparators[0], (ast.Tuple, ast.List, ast.Set))]
     for sk in skips:
@@ -1520,7 +1757,7 @@ def rule_noclosure(ctx):
     prog = ctx.prog
     r = RuleResult("R-NOCLOSURE", floor=4)
     from ..anchors import condition_parser, path_parser, part_parser
-    funcs = [condition_parser(prog), path_parser(prog), part_parser(prog), prog.func("rules.Rule.from_spec"), prog.func("schema.Schema.init_rules"), prog.func("datapath.DataPath.from_part_specs")]
+    funcs = [condition_parser(prog), path_parser(prog), part_parser(prog), prog.flat("rules.Rule.from_spec"), prog.flat("schema.Schema.init_rules"), prog.flat("datapath.DataPath.from_part_specs")]
     for f in funcs:
         nested = [n for n in ast.walk(f.node) if isinstance(n, (ast.FunctionDef, ast.AsyncFunctionDef)) and n is not f.node]
         lambdas = [n for n in ast.walk(f.node) if isinstance(n, ast.Lambda) and not (isinstance(getattr(n, "_parent", None), ast.keyword) and n._parent.arg == "key")]
